@@ -205,8 +205,50 @@ theorem trimStart_of_pestWs_only (R : Str) (h : R.dropWhile isPestWs = []) : tri
       exact ih h
     · simp [List.dropWhile_cons, hc] at h
 
-/-- `{{~v~}}` -/
+/-- a template that compiled to  [text?] · `{{v}}` · [text?]  renders to those texts around the escaped value -/
+theorem render_text_value_text (r : Registry) (fs : FS) (src : Str) (lo ro : Option Str) (m : List (Nat × Nat)) (data j : Json)
+    (hdev : r.dev = false)
+    (hcomp : compile2 src { preventIndent := r.preventIndent }
+      = .ok (.mk none ((lo.map Elem.raw).toList ++ [.expr PlainText.valHT] ++ (ro.map Elem.raw).toList) m))
+    (hnohelper : assocGet r.helpers ['v'] = none)
+    (hsafe : Spec.indexSafe data [['v']] = true) (hj : Spec.descend data [['v']] = some j) :
+    r.renderTemplate fs src data = .ok (lo.getD [] ++ r.escape j.render ++ ro.getD []) := by
+  unfold Registry.renderTemplate Registry.renderTemplateToWrite Registry.renderTemplateWithContextToWrite
+    Registry.compileForRenderTemplate
+  rw [hcomp]
+  simp only [Registry.renderResolved, hdev, Bool.not_false, ↓reduceIte]
+  let ets : List (Elem × Str) := (lo.map (fun x => (Elem.raw x, x))).toList ++ [(.expr PlainText.valHT, r.escape j.render)]
+    ++ (ro.map (fun x => (Elem.raw x, x))).toList
+  have hel : (lo.map Elem.raw).toList ++ [Elem.expr PlainText.valHT] ++ (ro.map Elem.raw).toList = ets.map (·.1) := by
+    simp only [ets]
+    cases lo <;> cases ro <;> simp
+  have htxt : (ets.map (·.2)).flatten = lo.getD [] ++ r.escape j.render ++ ro.getD [] := by
+    simp only [ets]
+    cases lo <;> cases ro <;> simp
+  rw [hel]
+  have hw : ∀ p ∈ ets, WritesText r data { ({ rootTemplate := none } : RC) with currentTemplate := none } p.1 p.2 := by
+    intro p hp
+    simp only [ets, List.mem_append, List.mem_singleton] at hp
+    rcases hp with (hp | rfl) | hp
+    · cases lo with
+      | none => simp at hp
+      | some x => simp at hp; subst hp; exact writes_raw r data _ rfl _
+    · exact C02.value_writes_escaped r data j _ rfl rfl rfl rfl rfl hnohelper hsafe hj
+    · cases ro with
+      | none => simp at hp
+      | some x => simp at hp; subst hp; exact writes_raw r data _ rfl _
+  have hlen : ets.length + 12 ≤ renderFuel := by
+    have : renderFuel = 4000 := rfl
+    simp only [ets, List.length_append, List.length_singleton]
+    cases lo <;> cases ro <;> simp <;> omega
+  have := render_writes_template r data none ets m { rootTemplate := none } hlen hw
+  simp only [Tmpl.name] at this ⊢
+  rw [this, htxt]
+
+/-- `{{~v~}}`, `{{~v}}`, `{{v~}}` -/
 abbrev tildeValueTag : Str := PlainText.tvSrc
+abbrev tildeLeftValueTag : Str := PlainText.tlSrc
+abbrev tildeRightValueTag : Str := PlainText.trSrc
 
 /-- **render(L ++ {{~v~}} ++ R) = trim_end(L) ++ escape(text of data.v) ++ trim_start(R)** – from the source string to the bytes,
     for EVERY text `L` that may stand before a tag, EVERY text `R` without `{{`, every data value and escape function: a `~` on
@@ -219,49 +261,82 @@ theorem tilde_value_trims_both_sides (r : Registry) (fs : FS) (L R : Str) (data 
     (hnohelper : assocGet r.helpers ['v'] = none)
     (hsafe : Spec.indexSafe data [['v']] = true) (hj : Spec.descend data [['v']] = some j) :
     r.renderTemplate fs (L ++ tildeValueTag ++ R) data = .ok (trimEnd L ++ r.escape j.render ++ trimStart R) := by
-  unfold Registry.renderTemplate Registry.renderTemplateToWrite Registry.renderTemplateWithContextToWrite
-    Registry.compileForRenderTemplate
   obtain ⟨m, hcomp⟩ := PlainText.compile_text_tv_text L _ _ { preventIndent := r.preventIndent } hL (PlainText.textAfterTag_split R hR)
   rw [← PlainText.split_ws R] at hcomp
-  rw [hcomp]
-  simp only [Registry.renderResolved, hdev, Bool.not_false, ↓reduceIte]
-  let ets : List (Elem × Str) := (if L = [] then [] else [(.raw (trimEnd L), trimEnd L)]) ++ [(.expr PlainText.valHT, r.escape j.render)]
-    ++ (if R.dropWhile isPestWs = [] then [] else [(.raw (trimStart R), trimStart R)])
-  have hel : (PlainText.leftT L (trimEnd L)).elements ++ [Elem.expr PlainText.valHT]
-      ++ (if R.dropWhile isPestWs = [] then [] else [Elem.raw (trimStart R)]) = ets.map (·.1) := by
-    simp only [ets]
-    by_cases hLe : L = [] <;> by_cases hRe : R.dropWhile isPestWs = [] <;> simp [hLe, hRe, PlainText.leftT, Tmpl.empty, Tmpl.elements]
-  have htxt : (ets.map (·.2)).flatten = trimEnd L ++ r.escape j.render ++ trimStart R := by
-    simp only [ets]
-    by_cases hLe : L = []
-    · subst hLe
-      by_cases hRe : R.dropWhile isPestWs = []
-      · simp [hRe, trimStart_of_pestWs_only R hRe, trimEnd, dropWhileEnd]
-      · simp [hRe, trimEnd, dropWhileEnd]
-    · by_cases hRe : R.dropWhile isPestWs = []
-      · simp [hLe, hRe, trimStart_of_pestWs_only R hRe]
-      · simp [hLe, hRe]
-  rw [hel]
-  have hw : ∀ p ∈ ets, WritesText r data { ({ rootTemplate := none } : RC) with currentTemplate := none } p.1 p.2 := by
-    intro p hp
-    simp only [ets, List.mem_append, List.mem_singleton] at hp
-    rcases hp with (hp | rfl) | hp
-    · split at hp
-      · simp at hp
-      · simp at hp; subst hp; exact writes_raw r data _ rfl _
-    · exact C02.value_writes_escaped r data j _ rfl rfl rfl rfl rfl hnohelper hsafe hj
-    · split at hp
-      · simp at hp
-      · simp at hp; subst hp; exact writes_raw r data _ rfl _
-  have hlen : ets.length + 12 ≤ renderFuel := by
-    have h1 : (if L = [] then [] else [((Elem.raw (trimEnd L), trimEnd L) : Elem × Str)]).length ≤ 1 := by split <;> simp
-    have h2 : (if R.dropWhile isPestWs = [] then [] else [((Elem.raw (trimStart R), trimStart R) : Elem × Str)]).length ≤ 1 := by split <;> simp
-    simp only [ets, List.length_append, List.length_singleton]
-    have : renderFuel = 4000 := rfl
-    omega
-  have := render_writes_template r data none ets m { rootTemplate := none } hlen hw
-  simp only [Tmpl.name] at this ⊢
-  rw [this, htxt]
+  have h := render_text_value_text r fs (L ++ tildeValueTag ++ R) (if L = [] then none else some (trimEnd L))
+    (if R.dropWhile isPestWs = [] then none else some (trimStart R)) m data j hdev
+    (by rw [hcomp]; by_cases hLe : L = [] <;> by_cases hRe : R.dropWhile isPestWs = [] <;>
+          simp [hLe, hRe, PlainText.leftT, Tmpl.empty, Tmpl.elements])
+    hnohelper hsafe hj
+  rw [h]
+  by_cases hLe : L = []
+  · subst hLe
+    by_cases hRe : R.dropWhile isPestWs = []
+    · simp [hRe, trimStart_of_pestWs_only R hRe, trimEnd, dropWhileEnd]
+    · simp [hRe, trimEnd, dropWhileEnd]
+  · by_cases hRe : R.dropWhile isPestWs = []
+    · simp [hLe, hRe, trimStart_of_pestWs_only R hRe]
+    · simp [hLe, hRe]
+
+/-- **`{{~v}}`: only the text in front loses its trailing whitespace** – the text behind is reproduced as written -/
+theorem tilde_before_value_trims_left_only (r : Registry) (fs : FS) (L R : Str) (data j : Json) (hdev : r.dev = false)
+    (hL : L = [] ∨ PlainText.TextBeforeTag L) (hR : PlainText.noOpen R)
+    (hnohelper : assocGet r.helpers ['v'] = none)
+    (hsafe : Spec.indexSafe data [['v']] = true) (hj : Spec.descend data [['v']] = some j) :
+    r.renderTemplate fs (L ++ tildeLeftValueTag ++ R) data = .ok (trimEnd L ++ r.escape j.render ++ R) := by
+  obtain ⟨m, hcomp⟩ := PlainText.compile_text_tl_text L _ _ { preventIndent := r.preventIndent } hL (PlainText.textAfterTag_split R hR)
+  rw [← PlainText.split_ws R] at hcomp
+  have h := render_text_value_text r fs (L ++ tildeLeftValueTag ++ R) (if L = [] then none else some (trimEnd L))
+    (if R = [] then none else some R) m data j hdev
+    (by rw [hcomp]; by_cases hLe : L = [] <;> by_cases hRe : R = [] <;>
+          simp [hLe, hRe, PlainText.leftT, Tmpl.empty, Tmpl.elements])
+    hnohelper hsafe hj
+  rw [h]
+  by_cases hLe : L = []
+  · subst hLe
+    by_cases hRe : R = [] <;> simp [hRe, trimEnd, dropWhileEnd]
+  · by_cases hRe : R = [] <;> simp [hLe, hRe]
+
+/-- **`{{v~}}`: only the text behind loses its leading whitespace** – the text in front is reproduced as written -/
+theorem tilde_after_value_trims_right_only (r : Registry) (fs : FS) (L R : Str) (data j : Json) (hdev : r.dev = false)
+    (hL : L = [] ∨ PlainText.TextBeforeTag L) (hR : PlainText.noOpen R)
+    (hnohelper : assocGet r.helpers ['v'] = none)
+    (hsafe : Spec.indexSafe data [['v']] = true) (hj : Spec.descend data [['v']] = some j) :
+    r.renderTemplate fs (L ++ tildeRightValueTag ++ R) data = .ok (L ++ r.escape j.render ++ trimStart R) := by
+  obtain ⟨m, hcomp⟩ := PlainText.compile_text_tr_text L _ _ { preventIndent := r.preventIndent } hL (PlainText.textAfterTag_split R hR)
+  rw [← PlainText.split_ws R] at hcomp
+  have h := render_text_value_text r fs (L ++ tildeRightValueTag ++ R) (if L = [] then none else some L)
+    (if R.dropWhile isPestWs = [] then none else some (trimStart R)) m data j hdev
+    (by rw [hcomp]; by_cases hLe : L = [] <;> by_cases hRe : R.dropWhile isPestWs = [] <;>
+          simp [hLe, hRe, PlainText.leftT, Tmpl.empty, Tmpl.elements])
+    hnohelper hsafe hj
+  rw [h]
+  by_cases hLe : L = []
+  · subst hLe
+    by_cases hRe : R.dropWhile isPestWs = []
+    · simp [hRe, trimStart_of_pestWs_only R hRe]
+    · simp [hRe]
+  · by_cases hRe : R.dropWhile isPestWs = []
+    · simp [hLe, hRe, trimStart_of_pestWs_only R hRe]
+    · simp [hLe, hRe]
+
+/-- **a `~` equals deleting the whitespace by hand**: the three tilde forms render what `{{v}}` renders on the source from which
+    the whitespace next to the tilde was deleted (whenever that source is again a text-tag-text source) -/
+theorem tilde_equals_manual_deletion (r : Registry) (fs : FS) (L R : Str) (data j : Json) (hdev : r.dev = false)
+    (hL : L = [] ∨ PlainText.TextBeforeTag L) (hR : PlainText.noOpen R)
+    (hL' : trimEnd L = [] ∨ PlainText.TextBeforeTag (trimEnd L)) (hR' : PlainText.noOpen (trimStart R))
+    (hnohelper : assocGet r.helpers ['v'] = none)
+    (hsafe : Spec.indexSafe data [['v']] = true) (hj : Spec.descend data [['v']] = some j) :
+    r.renderTemplate fs (L ++ tildeValueTag ++ R) data = r.renderTemplate fs (trimEnd L ++ C02.valueTag ++ trimStart R) data ∧
+    r.renderTemplate fs (L ++ tildeLeftValueTag ++ R) data = r.renderTemplate fs (trimEnd L ++ C02.valueTag ++ R) data ∧
+    r.renderTemplate fs (L ++ tildeRightValueTag ++ R) data = r.renderTemplate fs (L ++ C02.valueTag ++ trimStart R) data := by
+  refine ⟨?_, ?_, ?_⟩
+  · rw [tilde_value_trims_both_sides r fs L R data j hdev hL hR hnohelper hsafe hj,
+      C02.value_between_texts_escaped_once r fs (trimEnd L) (trimStart R) data j hdev hL' hR' hnohelper hsafe hj]
+  · rw [tilde_before_value_trims_left_only r fs L R data j hdev hL hR hnohelper hsafe hj,
+      C02.value_between_texts_escaped_once r fs (trimEnd L) R data j hdev hL' hR hnohelper hsafe hj]
+  · rw [tilde_after_value_trims_right_only r fs L R data j hdev hL hR hnohelper hsafe hj,
+      C02.value_between_texts_escaped_once r fs L (trimStart R) data j hdev hL hR' hnohelper hsafe hj]
 
 /-- non-vacuity: text with a line break, a tab and a no-break space next to the tag on either side -/
 example : PlainText.TextBeforeTag ['a', '\n', '\t', '\u00a0'] ∧ trimEnd ['a', '\n', '\t', '\u00a0'] = ['a'] ∧ trimStart ['\u3000', '\n', 'z', ' '] = ['z', ' '] := by
